@@ -12,6 +12,14 @@
            (seg/pyramid.py create_segmentation_pyramid).
    Part 7  little-endian serialisation of native Parametric Map frames
            (pm/sop.py _encode_frame).
+   Part 8  SOPClass.__init__ (base.py).  Part 9  one segment plane and the
+           ownership algebra of numpy results (seg/sop.py).
+   Part 10 SegmentedPaletteColorLUT.__init__: number of expanded entries,
+           descriptor, stored bytes (content.py).
+   Part 11 the pixel measures a Segmentation records: origin of the sequence
+           and copy-before-write (seg/sop.py __init__).
+   Part 12 displayed area of a presentation state: which referenced image is
+           selected and what happens to the caller's list (pr/content.py).
 
    No proofs in this file. *)
 From Coq Require Import String ZArith List Bool Arith PeanoNat.
